@@ -19,7 +19,7 @@ CLAIMED = {
          "Held-on-N-histories exploration; two genuine defects (revocation secret stored before refusal, allowlist partially applied) were repaired by fix: commits.",
          "Storage backend failures not generated; API-level requests with the handler's persist envelope, wire-protocol handlers not driven.",
          "C10"),
- "C11": ("stateful property-based testing with crash injection after every request: a twin signer is restored from a copy of the store alone and compared field by field with the running signer on the items the property lists",
+ "C11": ("stateful property-based testing with crash injection after every request: a twin signer is restored from a copy of the store alone and compared field by field with the running signer on the items the property lists; memory store, cloud-staged store, and vls-persist's BackupPersister (twin restored from the backup store alone); one channel carries a permanent id",
          "Held-on-N-histories exploration (about 50k restores per quick run); the genuine defect found (forget flag not durable) was repaired by a fix: commit.",
          "Twin restored through the in-memory KVV store (redb reopen: C16); cloud store twin is restored from the committed local store.",
          "C11"),
@@ -27,7 +27,7 @@ CLAIMED = {
          "Held-on-N-histories exploration; four genuine defects (forward-order undo, inverted watch changes, abort on revoked commitment, streamed removal always refused) were repaired by fix: commits.",
          "Regtest only for tracker-level runs; HTLC/second-level spends carry synthetic scripts (the monitor looks at outpoints only); chains up to 40 blocks.",
          "C14"),
- "C13": ("stateful property-based testing of ChainTracker on regtest with mined headers, constructed proofs and attestation sets; one injected fault per request; oracle = reference chain model (accepted implies no injected fault), snapshot equality after every refusal, a valid request succeeds after a rejection",
+ "C13": ("stateful property-based testing of ChainTracker on regtest with mined headers, constructed proofs and attestation sets; one injected fault per request (incl. repeated attestations), plus a node-level scenario (configured trusted oracle, restart from the store, block attested by an untrusted key); oracle = reference chain model (accepted implies no injected fault), snapshot equality after every refusal, a valid request succeeds after a rejection",
          "Held-on-N-histories exploration; three genuine defects (header popped before validation, streamed removal compared against the wrong hash, no abort path for refused streamed blocks) were repaired by fix: commits and are kept as regression replays.",
          "Only regtest proof-of-work can be mined: mainnet/testnet checkpoints get refusal paths only; retarget rule is the x4 band as implemented (no timestamp retargeting).",
          "C13"),
@@ -63,15 +63,15 @@ CLAIMED = {
          "Held-on-N-cases exploration; the genuine defect found (implied fee rate truncated to 32 bits) was repaired by a fix: commit and kept as a regression replay.",
          "Dust limit 330 sat and +2/kw rounding tolerance so that the oracle never demands more than the property; min_funding_depth is fixed at 1 by OnchainValidatorFactory.",
          "C05"),
- "C12": ("property-based testing of VelocityControl against an exact approvals ledger (window-sum oracle in u128), plus stateful generation on a real node and on VelocityApprover with restarts from the store",
+ "C12": ("property-based testing of VelocityControl against an exact approvals ledger (window-sum oracle in u128), plus stateful generation on a real node (invoices, keysends, retries of the last invoice, on-chain fees) and on VelocityApprover with restarts from the store",
          "Held-on-N-sequences exploration; two genuine defects (controls reset by restart, fee control not persisted) were repaired by fix: commits and kept as regression replays.",
          "Non-decreasing timestamps; on-chain fees capped at 150 sat per request.",
          "C12"),
  "C17": ("property-based testing with constructed tamper operators: round-trip and injectivity oracles over three authentication layers (LSS per-value tag, shared mutation-list tag in both implementations, nonce binding)",
-         "Held-on-N-cases exploration; the unframed-concatenation collisions (boundary move, merge/split) are genuine and listed as known findings by exact signature, all other tamper operators must be refused.",
+         "Held-on-N-cases exploration; collisions between record lists whose key|version|value concatenations are equal are the genuine unframed-input weakness, listed as known findings (one signature per layer); any other collision or accepted tamper (other key, version, swapped, truncated, damaged tag, replayed or restart-repeated nonce) is reported.",
          "HMAC-SHA256/ChaCha20 trusted; versions < 2^63.",
          "C17"),
- "C01": ("stateful property-based testing: generated request histories on a real channel, executed at API level or through the vls-protocol-signer wire handlers at negotiated protocol versions 4, 5 and 6 (old combined validate+revoke, point requests that return secrets), ghost ledger of disclosed secrets vs independently verified accepted validations, restarts injected",
+ "C01": ("stateful property-based testing: generated request histories on a real channel, executed at API level or through the vls-protocol-signer wire handlers at negotiated protocol versions 4, 5 and 6 (old combined validate+revoke, point requests that return secrets), ghost ledger of disclosed secrets vs independently verified accepted validations, restarts and storage faults (failed channel write, answer, crash-restart) injected",
          "Held-on-N-histories exploration of the holder revocation state machine against an explicit ledger oracle; not a proof.",
          "Trusted: LDK commitment/HTLC transaction builders used for the reference transactions, libsecp256k1 verification.",
          "C01"),
